@@ -170,7 +170,7 @@ Definition unmock_entry_spec (no_deps : bool) (src : sig) (emitted : sig) (deps 
 (** dependency kind of a source fn, as the documentation describes it *)
 Fixpoint deps_kind_of_type (g : generics) (ty : fty) : fn_deps :=
   match ty with
-  | TyImpl _ b => DGeneric None (trait_bounds b)
+  | TyImpl _ b => DGeneric None (trait_bounds (life_names g) b)
   | TyRef _ _ e | TyParen e => deps_kind_of_type g e
   | TyPath false false 1 first _ =>
       if existsb (fun p => match gp_kind p with GType => String.eqb (gp_name p) first | _ => false end)
